@@ -59,6 +59,16 @@ Seeded change missed before `rerun` existed, now caught (witnesses + generated c
 catalog answers {1} | {1} instead of {1} | {4 5}, object CHANGED):
   M19 _get_value resolves the Names of a list IN PLACE (value[i] = resolved; return value), so a retained query
       object keeps the first execution's bindings                                          caught (rerun spy/real, opt 0/1)
+Seeded change C10_F (process_Call reads only the LAST component of a dotted callee: `a in x.any([1, 2])`,
+`a not in builtins.all([1])`, `a in x.y.any([1])` accepted) was missed by token-level mutation; the AST-level near
+misses (near_miss: one node replaced by a neighbouring construct of the expression grammar, printed by ast.unparse)
+and the fixed call-shape product (callee shape x argument shape x context, extra) catch it.  Further mutations of the
+same class (accepting a neighbour of the grammar), each VIOLATION on quick seed 0 (M20-M22 were also caught by the
+token-level mutations alone, M23 was missed by them):
+  M20 process_Starred returns its child (`a in any(*[1, 2])`, `a == [*x]` accepted)          caught (parse)
+  M21 process_Invert = process_Not (`~(a == 1)` accepted)                                   caught (parse)
+  M22 process_Subscript returns the value (`a[0] == 1` accepted as `a == 1`)                caught (parse)
+  M23 keyword arguments of any()/all() ignored (`a in any([1], x=2)` accepted)              caught (parse)
 """
 import ast
 import copy
@@ -1970,8 +1980,21 @@ RULE = ("each case = one generated spelling s (12 comparators, ranges, and/or/no
         "different names on spy indexes and the real catalog; 60% of the cases add a spelling with >= 2 distinct Names in "
         "one comparator: a == x or a == y, a != x and a != y, any/all of lists/tuples/nested lists, ranges), "
         "2-4 token-level mutations (delete/duplicate/swap/replace/insert) of the string through the real "
-        "ast.parse and both walks, 2 qeq pairs (tree vs perturbed copy incl. Python-equal constants of other types), "
-        "1 subst; extra: the 16 spellings documented in the class docstrings parse to the documenting class; every "
+        "ast.parse and both walks, 2-4 near misses built on the AST (one or two nodes of the spelling, or of a fresh "
+        "small type-correct spelling, replaced by a neighbouring construct of Python's expression grammar and "
+        "printed by ast.unparse - the text stays syntactically valid, the walk has to reject it: callee shapes "
+        "around any/all (x.any, builtins.all, x.y.any, any.x, any(), any[0], (lambda: any), ...), keyword / ** / "
+        "starred / 0 / 2 arguments, near-miss function names, index names extended to attribute chains, subscripts, "
+        "calls, operators (is / is not, chains of 3+, ranges with > >= == in), BoolOp -> arithmetic or bit BinOp / "
+        "IfExp / Compare, other unary operators, values and query nodes replaced by or wrapped in Set, Dict, "
+        "comprehensions, lambda, IfExp, walrus, f-string, subscript, slice, starred, await, yield, arithmetic; "
+        "measured quick seed 0, of 48 166 mutated parse commands: dotted callee ending in any/all 561 (151 of depth "
+        ">= 2, 258 on a non-name; all rejected), keyword 208, ** 214, starred argument 384, any/all with 0 / 2 "
+        "arguments 183 / 216, other callee name 1181, Subscript 1487, Lambda 645, IfExp 1283, comprehensions 756, "
+        "Invert 687, arithmetic/shift/xor BinOp 3051, is/is not 2006, chains of 3+ 441, range with other operators "
+        "3003, chained-attribute operand 1043), 2 qeq pairs (tree vs perturbed copy incl. Python-equal constants of other types), "
+        "1 subst; extra: the 16 spellings documented in the class docstrings parse to the documenting class; the "
+        "call-shape product (40 callee shapes x 9 argument shapes x 8 contexts around any/all, 2346 strings); every "
         "string of <= 4 (thorough 5) tokens over a 15 (18) token alphabet; non-trivial = the case has an accepted "
         "And/Or tree and a rejected string")
 LEVEL_TEXT = ("Lean 4 theorems for all ASTs / all spellings / all trees / all names mappings: the walk of the AST of "
